@@ -6,7 +6,7 @@
     any list of monomials;  [quad_d2], [quad_d1] are its exact second / first partial derivatives. *)
 From Coq Require Import ZArith Reals List Lra Lia Bool Permutation.
 From Coquelicot Require Import Coquelicot.
-From Dadi Require Import Base.Num Base.NumR Model.Godambe Proofs.GodambeProofs Proofs.GodambePoisson.
+From Dadi Require Import Base.Num Base.NumR Model.Godambe Proofs.GodambeProofs Proofs.GodambePoisson Proofs.GodambeLnBounds Proofs.GodambeRemainder.
 Import ListNotations.
 Local Open Scope R_scope.
 
@@ -120,6 +120,102 @@ Theorem C19_grad_onesided_on_quadratics_refuted :
   exists c lin qd p0 eps, eps <> 0 /\
     nth 0 (get_grad (quadm c lin qd) p0 eps) 0 <> quad_d1 lin qd p0 0.
 Proof. exact get_grad_onesided_not_exact. Qed.
+
+(** remainder of the central stencils on u |-> ln (a + u), a > 0 (standalone, no model definitions) *)
+Theorem C19_ln_stencil_remainders :
+  (forall a p, 0 < a -> Rabs p <= a / 2 ->
+     Rabs (ln (a + p) - ln (a - p) - 2 * p / a) <= 8 / 3 * (Rabs p * Rabs p * Rabs p) / (a * a * a)) /\
+  (forall a p, 0 < a -> Rabs p <= a / 2 ->
+     Rabs (ln (a + p) - 2 * ln a + ln (a - p) + p * p / (a * a)) <= 2 * (p * p * (p * p)) / (a * a * (a * a))) /\
+  (forall a p q, 0 < a -> Rabs p + Rabs q <= a / 4 ->
+     Rabs (ln (a + p + q) - ln (a + p - q) - ln (a - p + q) + ln (a - p - q) + 4 * p * q / (a * a))
+     <= 40 * (Rabs p * Rabs q) * ((Rabs p + Rabs q) * (Rabs p + Rabs q)) / (a * a * (a * a))).
+Proof. exact (conj ln_grad_bound (conj ln_diag_bound ln_off_bound)). Qed.
+Print Assumptions C19_ln_stencil_remainders.
+
+(** Poisson model linear in its parameters, all means positive; rho bounds the shares |theta_k B_i[k]| / m_i
+    ([share_bound]; rho = 1 when all theta_k B_i[k] >= 0, see C19_share_bound_nonneg).
+    For 0 < eps <= 1/(8 rho) and coordinates r, c on which the step-size rule selects the central stencils
+    (theta <> 0, 1e-6 <= theta * eps), the entry of get_hess is within
+       C_H eps^2,  C_H = 40 rho^2 sum_i |d_i| |B_i[r] B_i[c]| / m_i^2   (pois_abs_hess; independent of eps and of adj)
+    of the closed form pois_hess. *)
+Theorem C19_poisson_hessian_within_eps2 :
+  forall (Bs : list (list R)) (dt : @pdata R) (theta : list R) (rho : R),
+  0 < pd_adj dt -> List.Forall (fun b => 0 < ndot theta b) Bs -> 0 < rho -> share_bound Bs theta rho ->
+  forall (eps : R) (r c : nat),
+  0 < eps -> eps <= / (8 * rho) -> (r < length theta)%nat -> (c < length theta)%nat ->
+  nth r theta 0 <> 0 -> Rtiny <= nth r theta 0 * eps ->
+  nth c theta 0 <> 0 -> Rtiny <= nth c theta 0 * eps ->
+  Rabs (nth c (nth r (get_hess (pois_ll (lin_mean Bs) dt) theta eps) []) 0 - pois_hess Bs dt theta r c)
+  <= 40 * (rho * rho) * pois_abs_hess Bs dt theta r c * (eps * eps).
+Proof. exact poisson_hessian_within_eps2. Qed.
+Print Assumptions C19_poisson_hessian_within_eps2.
+
+(** same for get_grad:  C_g = 4/3 rho^2 sum_i |d_i| |B_i[k]| / m_i  (pois_abs_grad) *)
+Theorem C19_poisson_gradient_within_eps2 :
+  forall (Bs : list (list R)) (dt : @pdata R) (theta : list R) (rho : R),
+  0 < pd_adj dt -> List.Forall (fun b => 0 < ndot theta b) Bs -> 0 < rho -> share_bound Bs theta rho ->
+  forall (eps : R) (k : nat),
+  0 < eps -> eps <= / (8 * rho) -> (k < length theta)%nat ->
+  nth k theta 0 <> 0 -> Rtiny <= nth k theta 0 * eps ->
+  Rabs (nth k (get_grad (pois_ll (lin_mean Bs) dt) theta eps) 0 - pois_grad Bs dt theta k)
+  <= 4 / 3 * (rho * rho) * pois_abs_grad Bs dt theta k * (eps * eps).
+Proof. exact poisson_gradient_within_eps2. Qed.
+Print Assumptions C19_poisson_gradient_within_eps2.
+
+(** per-entry form: hessian_elem with central flags, whatever the lists eps / one_sided are elsewhere *)
+Theorem C19_poisson_hess_elem_central_within_eps2 :
+  forall (Bs : list (list R)) (dt : @pdata R) (theta : list R) (rho : R),
+  0 < pd_adj dt -> List.Forall (fun b => 0 < ndot theta b) Bs -> share_bound Bs theta rho ->
+  forall (es : list R) (os : list bool) (ii jj : nat) (eps : R),
+  (ii < length theta)%nat -> (jj < length theta)%nat -> 0 < eps -> eps * rho <= 1 / 8 ->
+  nth ii theta 0 <> 0 -> nth jj theta 0 <> 0 ->
+  nth ii es 0 = eps * nth ii theta 0 -> nth jj es 0 = eps * nth jj theta 0 ->
+  nth ii os false = false -> nth jj os false = false ->
+  Rabs (hess_elem (pois_ll (lin_mean Bs) dt) (pois_ll (lin_mean Bs) dt theta) theta ii jj es os - pois_hess Bs dt theta ii jj)
+  <= 40 * (rho * rho) * pois_abs_hess Bs dt theta ii jj * (eps * eps).
+Proof. exact hess_elem_central_bound. Qed.
+
+Theorem C19_share_bound_nonneg :
+  forall (Bs : list (list R)) (theta : list R),
+  List.Forall (fun b => forall k, 0 <= nth k theta 0 * nth k b 0) Bs -> share_bound Bs theta 1.
+Proof. exact share_bound_nonneg. Qed.
+
+(** H = - get_hess, J = mean of outer products of the bootstrap gradients, cU = mean gradient: each entry within
+    (explicit constant) * eps^2 of the value obtained from the closed-form Hessian / score vectors.
+    (The inverse-matrix stage -- GIM = H J^-1 H, uncertainties, LRT adjustment, Wald, score -- is NOT covered.) *)
+Theorem C19_poisson_godambe_HJc_within_eps2 :
+  forall (Bs : list (list R)) (theta : list R) (rho : R) (data : @pdata R) (boots : list (@pdata R)) (eps : R),
+  0 < pd_adj data -> List.Forall (fun bt => 0 < pd_adj bt) boots -> List.Forall (fun b => 0 < ndot theta b) Bs ->
+  0 < rho -> share_bound Bs theta rho -> boots <> [] ->
+  0 < eps -> eps <= / (8 * rho) -> eps <= 1 ->
+  (forall k, (k < length theta)%nat -> nth k theta 0 <> 0 /\ Rtiny <= nth k theta 0 * eps) ->
+  let HJc := godambe_HJc (fun bt => pois_ll (lin_mean Bs) bt) theta eps data boots in
+  forall i j, (i < length theta)%nat -> (j < length theta)%nat ->
+    Rabs (nth j (nth i (fst (fst HJc)) []) 0 - - pois_hess Bs data theta i j)
+      <= 40 * (rho * rho) * pois_abs_hess Bs data theta i j * (eps * eps) /\
+    Rabs (nth j (nth i (snd (fst HJc)) []) 0 - J_entry (exact_grads Bs theta boots) i j)
+      <= nsum (map (J_const rho Bs theta i j) boots) / IZR (Z.of_nat (length boots)) * (eps * eps) /\
+    Rabs (nth i (snd HJc) 0 - cU_entry (exact_grads Bs theta boots) i)
+      <= nsum (map (grad_const rho Bs theta i) boots) / IZR (Z.of_nat (length boots)) * (eps * eps).
+Proof. exact poisson_godambe_HJc_within_eps2. Qed.
+Print Assumptions C19_poisson_godambe_HJc_within_eps2.
+
+(** the bound cannot hold for all small eps: below eps = 1e-6/theta_k the step-size rule switches to the
+    one-sided stencil, which is first order (witness: theta = 1, B = (1), d = 1: |error| >= eps/4) *)
+Theorem C19_poisson_gradient_eps2_for_all_small_eps_refuted :
+  exists (Bs : list (list R)) (dt : @pdata R) (theta : list R),
+    0 < pd_adj dt /\ List.Forall (fun b => 0 < ndot theta b) Bs /\
+    ~ (exists C eps0, 0 < eps0 /\ forall eps, 0 < eps <= eps0 ->
+         Rabs (nth 0 (get_grad (pois_ll (lin_mean Bs) dt) theta eps) 0 - pois_grad Bs dt theta 0) <= C * (eps * eps)).
+Proof. exact poisson_gradient_eps2_small_eps_refuted. Qed.
+Print Assumptions C19_poisson_gradient_eps2_for_all_small_eps_refuted.
+
+Example C19_remainder_nonvacuous :
+  let Bs := [[1; 1]; [2; 1]] in let dt := {| pd_adj := 1; pd_d := [3; 5]; pd_g := [0; 0] |} in
+  Rabs (nth 1 (nth 0 (get_hess (pois_ll (lin_mean Bs) dt) [1; 2] (1 / 100)) []) 0 - - (23 / 24)) <= 23 / 6000 /\
+  Rabs (nth 0 (get_grad (pois_ll (lin_mean Bs) dt) [1; 2] (1 / 100)) 0 - (3 / 3 - 1 + (5 / 4 - 1) * 2)) <= 4 / 3 * (3 / 3 + 10 / 4) * (1 / 10000).
+Proof. exact poisson_remainder_example. Qed.
 
 (** non-vacuity: f(p) = 1 + 2 p0 + 3 p1 + 2 p0^2 + 5 p0 p1 + p1^2 at (1, 0): second parameter zero => one-sided stencils *)
 Example C19_nonvacuous :
